@@ -119,6 +119,9 @@ class MLLPRequestHandler(StreamRequestHandler):
             except (ParserError, InvalidEncodingChars):
                 raise InvalidHL7Message
 
+            if msg_type == 'ERR':
+                # 'ERR' is the key of the error handler, not a message type that can be registered
+                raise UnsupportedMessageType(msg_type)
             try:
                 handler, args = self.handlers[msg_type][0], self.handlers[msg_type][1:]
             except KeyError:
